@@ -15,8 +15,11 @@ from vlib import ice, rt
 PROT, EK, IV, CT, TAG, AAD = b"PROTSEG", b"EKSEG", b"IVSEG", b"CTSEG", b"TAGSEG", b"AADSEG"
 EKV, CTV, AADV = b"encrypted-key-24-octets!", b"ciphertext-octets", b"aad-octets"
 ENCS = [("A128GCM", 12, 16, "gcm"), ("A128CBC-HS256", 16, 32, "cbc")]
-MODES = ["dir", "A128KW", "A128GCMKW", "RSA-OAEP", "ECDH-ES", "ECDH-ES+A128KW", "PBES2-HS256+A128KW", "ECDH-ES/OKP"]
-DIRECT = {"dir", "ECDH-ES", "ECDH-ES/OKP"}
+MODES = ["dir", "A128KW", "A128GCMKW", "RSA-OAEP", "ECDH-ES", "ECDH-ES+A128KW", "PBES2-HS256+A128KW", "ECDH-ES/OKP",
+         "ECDH-1PU", "ECDH-1PU+A128KW"]
+DIRECT = {"dir", "ECDH-ES", "ECDH-ES/OKP", "ECDH-1PU"}
+from joserfc.drafts.jwe_ecdh_1pu import register_ecdh_1pu
+register_ecdh_1pu()          # draft algorithm: has to be registered explicitly (class-level table of this process only)
 
 K16, K32 = ice.fake_key("oct16", kid="k16"), ice.fake_key("oct32", kid="k32")
 K16B = ice.fake_key("oct16", kid="k16b")
@@ -24,6 +27,8 @@ KRSA = ice.fake_key("RSA", kid="rsa", private=True)
 KEC = ice.fake_key("P-256", kid="ec", private=True)
 KX = ice.fake_key("X25519", kid="x", private=True)
 KPW = ice.fake_key("oct24", kid="pw")
+KSND = ice.fake_key("P-256", kid="snd", private=False)          # the sender's static public key (ECDH-1PU)
+KSND384 = ice.fake_key("P-384", kid="snd384", private=False)
 
 
 def octets(n, seed=1):
@@ -38,7 +43,7 @@ def scenario(mode_i, enc_i, iv_i, tag_i, ek_present, cek_i, has_zip, epk_bad):
     if has_zip:
         hdr["zip"] = "DEF"
     key = {"dir": K16 if ceklen == 16 else K32, "A128KW": K16, "A128GCMKW": K16, "RSA-OAEP": KRSA, "ECDH-ES": KEC,
-           "ECDH-ES+A128KW": KEC, "PBES2-HS256+A128KW": KPW, "ECDH-ES/OKP": KX}[mode]
+           "ECDH-ES+A128KW": KEC, "PBES2-HS256+A128KW": KPW, "ECDH-ES/OKP": KX, "ECDH-1PU": KEC, "ECDH-1PU+A128KW": KEC}[mode]
     binds = {}
     if mode == "A128GCMKW":
         hdr["iv"], hdr["tag"] = "KWIVSEG", "KWTAGSEG"
@@ -85,12 +90,12 @@ def patches():
     return _PATCHES
 
 
-def run_compact(sc, verdicts):
+def run_compact(sc, verdicts, sender=None):
     env = make_env(sc, verdicts)
     token = b".".join([PROT, EK if sc["ek"] else b"", IV if sc["iv"] else b"", CT, TAG if sc["tag"] else b""])
     with env.installed(patches()):
         try:
-            obj = jwe.decrypt_compact(token, sc["key"], algorithms=[sc["alg"], sc["enc"], "DEF"])
+            obj = jwe.decrypt_compact(token, sc["key"], algorithms=[sc["alg"], sc["enc"], "DEF"], sender_key=sender)
         except ice.HarnessError:
             raise
         except Exception as e:  # noqa
@@ -162,17 +167,30 @@ def check_cek(env, sc, key):
         if us[0]["key"] != p["out"] or us[0]["ek"] != sc["ek"]:
             return None
         return us[0]["out"]
-    # ECDH-ES family
+    # ECDH-ES / ECDH-1PU family
     if sc["epk_bad"]:
         return None
     xs, ks = env.of("exchange"), env.of("concatkdf")
-    if len(xs) != 1 or len(ks) != 1 or xs[0]["priv"] != key.kid or xs[0]["pub"] != "epk" or ks[0]["z"] != xs[0]["out"]:
+    direct = "+" not in sc["alg"]
+    if mode.startswith("ECDH-1PU"):
+        # Z = Ze || Zs: the recipient's private key with the ephemeral key of THIS token and with the sender's static key
+        snd = sc.get("sender")
+        if snd is None or len(xs) != 2 or len(ks) != 1 or any(x["priv"] != key.kid for x in xs):
+            return None
+        ze = [x for x in xs if x["pub"] == "epk"]
+        zs = [x for x in xs if x["pub"] == snd.kid]
+        if len(ze) != 1 or len(zs) != 1 or ks[0]["z"] != ice.Opaque("cat", ze[0]["out"], zs[0]["out"]):
+            return None
+        if not direct and sc["kind"] != "cbc":
+            return None                      # draft 2.1: key wrapping mode only with the AES_CBC_HMAC_SHA2 family
+    elif len(xs) != 1 or len(ks) != 1 or xs[0]["priv"] != key.kid or xs[0]["pub"] != "epk" or ks[0]["z"] != xs[0]["out"]:
         return None
     k = ks[0]
-    direct = "+" not in sc["alg"]
     name = sc["enc"] if direct else sc["alg"]
     bits = sc["ceklen"] * 8 if direct else 128
     want_info = len(name).to_bytes(4, "big") + name.encode() + bytes(8) + bits.to_bytes(4, "big")
+    if mode.startswith("ECDH-1PU") and not direct:
+        want_info += len(sc["tag"]).to_bytes(4, "big") + sc["tag"]          # cctag: the received authentication tag
     if k["hash"] != "sha256" or k["length"] != bits // 8 or k["otherinfo"] != want_info:
         return None
     if direct:
@@ -268,6 +286,33 @@ def compact_pbes2(enc_i: int, iv_i: int, tag_i: int, ek_present: bool, cek_i: in
     post: _
     """
     return _compact(6, enc_i, iv_i, tag_i, ek_present, cek_i, False, 0, v0, v1)
+
+
+def compact_1pu(direct: bool, enc_i: int, iv_i: int, tag_i: int, ek_present: bool, cek_i: int, epk_bad: int, sender_i: int, v0: bool, v1: bool) -> bool:
+    """
+    pre: 0 <= enc_i <= 1 and 0 <= iv_i <= 1 and 0 <= tag_i <= 1 and 0 <= cek_i <= 2 and 0 <= epk_bad <= 2 and 0 <= sender_i <= 2
+    post: _
+    """
+    rt.tick()
+    sc = scenario(8 if direct else 9, enc_i, iv_i, tag_i, ek_present, cek_i, False, epk_bad)
+    sc["sender"] = [KSND, None, KSND384][sender_i]
+    env, obj, exc = run_compact(sc, [v0, v1], sc["sender"])
+    if obj is None:
+        return True
+    if sender_i != 0:
+        return False                         # no sender key / a sender key on another curve can never yield a plaintext
+    return judge_compact(env, obj, sc)
+
+
+def compact_1pu_witness(direct: bool, enc_i: int, v0: bool, v1: bool) -> bool:
+    """
+    pre: 0 <= enc_i <= 1
+    post: _
+    """
+    sc = scenario(8 if direct else 9, enc_i, 0, 0, not direct, 0, False, 0)
+    sc["sender"] = KSND
+    env, obj, exc = run_compact(sc, [v0, v1], KSND)
+    return not (obj is not None and not direct and enc_i == 1)
 
 
 def compact_witness(mode_i: int, enc_i: int, has_zip: bool, v0: bool, v1: bool) -> bool:
